@@ -376,6 +376,11 @@ q_number::q_number(const z_number &z) {
 q_number::q_number(const z_number &num, const z_number &den) {
   mpz_init_set(mpq_numref(_n), num._n);
   mpz_init_set(mpq_denref(_n), den._n);
+  if (mpz_sgn(mpq_denref(_n)) == 0) {
+    CRAB_ERROR("q_number: zero denominator");
+  }
+  // GMP requires a positive denominator without common factors
+  mpq_canonicalize(_n);
 }
 
 q_number q_number::from_mpq_t(mpq_t mp) {
